@@ -371,7 +371,11 @@ pub fn ops_for(n: usize, thorough: bool, inject: bool) -> Vec<VOp> {
         v.push(VOp::Append(src, 2));
     }
     v.push(VOp::Append(Src::Array, 0));
-    let takes: &[Take] = if inject { &[Take::All, Take::FrontOne, Take::BackOne, Take::None, Take::KeepRest, Take::Forget] } else { &[Take::All, Take::FrontOne, Take::BackOne, Take::None, Take::KeepRest] };
+    let takes: &[Take] = if inject {
+        &[Take::All, Take::FrontOne, Take::BackOne, Take::None, Take::KeepRest, Take::KeepRestBack, Take::KeepRestNone, Take::Forget]
+    } else {
+        &[Take::All, Take::FrontOne, Take::BackOne, Take::None, Take::KeepRest, Take::KeepRestBack, Take::KeepRestNone]
+    };
     for s in 0..=n + 1 {
         for e in 0..=n + 1 {
             if s > e && !(s == e + 1) {
@@ -381,7 +385,7 @@ pub fn ops_for(n: usize, thorough: bool, inject: bool) -> Vec<VOp> {
             v.push(VOp::ExtendWithin(s, e));
             v.push(VOp::SplitOff(s, e));
             for &t in takes {
-                if thorough || matches!(t, Take::All | Take::FrontOne | Take::KeepRest | Take::Forget) || (s + 1 == e) {
+                if thorough || matches!(t, Take::All | Take::FrontOne | Take::KeepRest | Take::KeepRestBack | Take::Forget) || (s + 1 == e) {
                     v.push(VOp::Drain(s, e, t));
                 }
             }
@@ -627,6 +631,8 @@ fn parse_ops(s: &str) -> Option<Vec<VOp>> {
                 "None" => Take::None,
                 "Forget" => Take::Forget,
                 "KeepRest" => Take::KeepRest,
+                "KeepRestBack" => Take::KeepRestBack,
+                "KeepRestNone" => Take::KeepRestNone,
                 _ => return None,
             })
         };
